@@ -318,6 +318,37 @@ func famAPIRelease(cloud bool, bounds map[string]int) []*Scenario {
 			},
 			Final: quiesce,
 		})
+		// (c) the same with a third party instead of the resync: the only other IP of the pool is taken, so a pod of another
+		// workload can only get an IP if the release really frees the identity's one
+		out = append(out, &Scenario{Name: "apirelease-pod+other/" + c.String(), Class: c.String(), Cfg: cfgOnePool(2, cloud), Bounds: bounds, Weight: 3,
+			Build: func(w *world.World) []Thread {
+				c.setWorkload(w, 1)
+				p := c.pod(0)
+				o := world.PodSpec{Name: "o-0", NS: "ns", OwnerKind: "StatefulSet", OwnerName: "o"}
+				w.SetStatefulSet("ns", "o", 1)
+				w.CreatePod(p)
+				mustSchedule(w, p.Key())
+				w.DeletePod(p.Key())
+				quiesce(w)
+				for _, st := range w.MemDump() {
+					if !st.Alloc {
+						_ = preAllocate(w, st.IP, "sts_ns_bystander_bystander-0", "ub")
+					}
+				}
+				_, list := w.APIList("keyword=" + p.Name)
+				entries := append([]api.FloatingIP{}, list.Content...)
+				w.CreatePod(o)
+				return []Thread{
+					{"apirelease", func() { w.APIRelease(entries) }},
+					{"recreate+sched", func() {
+						w.CreatePod(p)
+						scheduleRetry(w, p.Key(), 2)()
+					}},
+					{"sched-other", scheduleRetry(w, o.Key(), 2)},
+				}
+			},
+			Final: quiesce,
+		})
 	}
 	return out
 }
